@@ -462,18 +462,19 @@ def run(ctx):
         if r.ok:
             coq_ok = True
             ctx.props("C10")
-    ring = os.path.join(os.path.dirname(os.path.dirname(os.path.dirname(os.path.abspath(__file__)))), "coq", "props", "C10_ring.v")
-    ctx.notes.append("exact-ring theorems for (a)/(d) (coq/props/C10_ring.v) " +
-                     ("present in this tree but compiled by its own check" if os.path.exists(ring) else
-                      "not merged into this tree yet: (a)/(d) rest on the numeric validation and the classical "
-                      "consistency theorem C10_postproc_matches_paulis"))
+    # parts (a) and (d) over the exact ring K32: regenerated Bell tables + props/C10_ring.v
+    # (its theorems are added to this check's obligations; numpy oracle with concrete state/basis)
+    import c10_ring
+    c10_ring.run_ring(ctx)
+    ctx.notes.append("exact-ring theorems for (a)/(d): coq/props/C10_ring.v compiled in this check against the "
+                     "regenerated Gen_Bell.v (C10_bell_fix, C10_bell_only, C10_postprocess_stats, ...)")
     ctx.trusted += [
         "gen/epr_tables.py: Bell state -> gates table recorded by executing the real correction code for every "
         "BellState value (and one non-member); EprMeasureResult.measurement_outcome evaluated on 6 bases x 4 states x 2 "
         "outcomes; SER_RESPONSE_KEEP_* / OK_FIELDS constants",
         "harness/sdk_pipeline.py SvExecutor (numpy state vector, gate matrices written from the mnemonics' definitions, "
         "Bell pair created in the state named by the response, modelled remote partner)",
-        "numpy linear algebra with tolerance 1e-9 as oracle for parts (a) and (d) until C10_ring.v is merged",
+        "numpy linear algebra with tolerance 1e-9 as the implementation-side oracle for parts (a) and (d); the theorems for (a)/(d) are exact (ring K32, props/C10_ring.v)",
     ]
     ctx.assume += [
         "the link-layer response names the Bell state the pair really is in (local qubit first)",
